@@ -161,22 +161,17 @@ impl AggregateExecutionEngine {
                 if column_value.is_not_null() {
                     let group_value = self.get_group_value(group_key.clone(), aggregate_index, || Ok(column_value.clone()))?;
 
+                    // Compare using the value order of the type, so that it works for every type (not only numeric)
                     match aggregate {
                         Aggregate::Min(_) => {
-                            group_value.modify_same_type_numeric_nullable(
-                                &column_value,
-                                |x, y| { *x = (*x).min(y) },
-                                |x, y| { *x = (*x).min(y) },
-                                |x, y| { *x = (*x).min(y) }
-                            );
+                            if group_value.is_null() || column_value < *group_value {
+                                *group_value = column_value.clone();
+                            }
                         }
                         Aggregate::Max(_) => {
-                            group_value.modify_same_type_numeric_nullable(
-                                &column_value,
-                                |x, y| { *x = (*x).max(y) },
-                                |x, y| { *x = (*x).max(y) },
-                                |x, y| { *x = (*x).max(y) }
-                            );
+                            if group_value.is_null() || column_value > *group_value {
+                                *group_value = column_value.clone();
+                            }
                         }
                         _ => { unimplemented!(); }
                     };
